@@ -45,16 +45,17 @@ VARIABLES flog,     \* flog[d]: file event log of device d
           folders,  \* folders that exist on the editor
           up,       \* queued transfer operations of the editor: sequence
           dl,       \* downloads queued on the reader: set of blobs
+          online,   \* FALSE while the server cannot be reached
           nops, last
 
-vars == <<flog, srvLog, blobs, srvBlobs, slot, folders, up, dl, nops, last>>
+vars == <<flog, srvLog, blobs, srvBlobs, slot, folders, up, dl, online, nops, last>>
 
 Init ==
   /\ flog = [d \in Devices |-> <<>>] /\ srvLog = <<>>
   /\ blobs = [d \in Devices |-> {}] /\ srvBlobs = {}
   /\ slot = [s \in Slots |-> None]
   /\ folders = Folders
-  /\ up = <<>> /\ dl = {}
+  /\ up = <<>> /\ dl = {} /\ online = TRUE
   /\ nops = 0 /\ last = <<"Init">>
 
 (* net/src/account/file_transfers normalize(): a delete or move of a blob   *)
@@ -75,7 +76,7 @@ CreateFile(s, f, c) ==
   /\ slot' = [slot EXCEPT ![s] = [f |-> f, c |-> c]]
   /\ Edit(<<Create(Blob(f, s, c))>>, blobs[Editor] \cup {Blob(f, s, c)},
           <<<<"upload", Blob(f, s, c)>>>>, <<"CreateFile", s, f, c>>)
-  /\ UNCHANGED <<srvLog, srvBlobs, folders, dl>>
+  /\ UNCHANGED <<srvLog, srvBlobs, folders, dl, online>>
 
 (* new content: the old blob is deleted, the new one created *)
 UpdateFile(s, c) ==
@@ -85,7 +86,7 @@ UpdateFile(s, c) ==
      IN /\ slot' = [slot EXCEPT ![s].c = c]
         /\ Edit(<<Delete(old), Create(new)>>, (blobs[Editor] \ {old}) \cup {new},
                 <<<<"delete", old>>, <<"upload", new>>>>, <<"UpdateFile", s, c>>)
-  /\ UNCHANGED <<srvLog, srvBlobs, folders, dl>>
+  /\ UNCHANGED <<srvLog, srvBlobs, folders, dl, online>>
 
 MoveFile(s, g) ==
   /\ slot[s] # None /\ g \in folders /\ slot[s].f # g
@@ -94,14 +95,14 @@ MoveFile(s, g) ==
      IN /\ slot' = [slot EXCEPT ![s].f = g]
         /\ Edit(<<Move(old, g)>>, (blobs[Editor] \ {old}) \cup {new},
                 <<<<"move", old, g>>>>, <<"MoveFile", s, g>>)
-  /\ UNCHANGED <<srvLog, srvBlobs, folders, dl>>
+  /\ UNCHANGED <<srvLog, srvBlobs, folders, dl, online>>
 
 DeleteSecret(s) ==
   /\ slot[s] # None
   /\ LET old == Blob(slot[s].f, s, slot[s].c)
      IN /\ slot' = [slot EXCEPT ![s] = None]
         /\ Edit(<<Delete(old)>>, blobs[Editor] \ {old}, <<<<"delete", old>>>>, <<"DeleteSecret", s>>)
-  /\ UNCHANGED <<srvLog, srvBlobs, folders, dl>>
+  /\ UNCHANGED <<srvLog, srvBlobs, folders, dl, online>>
 
 RECURSIVE DelEvents(_)
 DelEvents(S) == IF S = {} THEN <<>>
@@ -115,18 +116,24 @@ DeleteFolder(f) ==
      IN /\ slot' = [s \in Slots |-> IF slot[s] # None /\ slot[s].f = f THEN None ELSE slot[s]]
         /\ folders' = folders \ {f}
         /\ Edit(DelEvents(gone), blobs[Editor] \ gone, DelOps(gone), <<"DeleteFolder", f>>)
-  /\ UNCHANGED <<srvLog, srvBlobs, dl>>
+  /\ UNCHANGED <<srvLog, srvBlobs, dl, online>>
 
 (* the editor's sync pushes its file events *)
 PushLog ==
-  /\ srvLog # flog[Editor]
+  /\ online /\ srvLog # flog[Editor]
   /\ srvLog' = flog[Editor]
-  /\ UNCHANGED <<flog, blobs, srvBlobs, slot, folders, up, dl, nops, last>>
+  /\ UNCHANGED <<flog, blobs, srvBlobs, slot, folders, up, dl, online, nops, last>>
 
-(* the server applies the head of the transfer queue *)
-Transfer ==
-  /\ up # <<>>
-  /\ LET op == Head(up)
+(* the server applies a queued transfer operation: the oldest one.  The    *)
+(* code (file_transfers/mod.rs consume_queue) starts up to                 *)
+(* concurrent_requests operations at once and waits for none of them       *)
+(* before starting the next, so operations that are queued together --     *)
+(* edits made while the server cannot be reached, or made faster than the  *)
+(* queue drains -- reach the server in any order: deviation QueueUnordered *)
+TransferAt(i) ==
+  /\ online /\ i \in 1..Len(up)
+  /\ LET op == up[i]
+         rest == SubSeq(up, 1, i - 1) \o SubSeq(up, i + 1, Len(up))
          dest == IF op[1] = "move" THEN Blob(op[3], op[2].s, op[2].c) ELSE op[2]
      IN
      /\ srvBlobs' = CASE op[1] = "upload" -> IF op[2] \in blobs[Editor] THEN srvBlobs \cup {op[2]} ELSE srvBlobs
@@ -138,27 +145,35 @@ Transfer ==
      (* exists locally the move becomes an upload of the destination       *)
      /\ up' = IF op[1] = "move" /\ op[2] \notin srvBlobs /\ dest \in blobs[Editor]
                  /\ "NoMovedMissing" \notin Deviations
-              THEN Tail(up) \o <<<<"upload", dest>>>>
-              ELSE Tail(up)
-  /\ UNCHANGED <<flog, srvLog, blobs, slot, folders, dl, nops, last>>
+              THEN rest \o <<<<"upload", dest>>>>
+              ELSE rest
+  /\ UNCHANGED <<flog, srvLog, blobs, slot, folders, dl, online, nops, last>>
+Transfer == \E i \in 1..Len(up) : (i = 1 \/ "QueueUnordered" \in Deviations) /\ TransferAt(i)
 
 (* the reader syncs: it learns the file events, drops blobs whose file was *)
 (* deleted or moved away and queues the downloads it lacks                 *)
 SyncReader ==
-  /\ flog[Reader] # srvLog
+  /\ online /\ flog[Reader] # srvLog
   /\ flog' = [flog EXCEPT ![Reader] = srvLog]
   /\ LET want == Reduce(srvLog)
          keep == IF "ReaderKeepsDeleted" \in Deviations THEN blobs[Reader] ELSE blobs[Reader] \cap want
      IN /\ blobs' = [blobs EXCEPT ![Reader] = keep]
         /\ dl' = want \ keep
   /\ nops' = nops + 1 /\ last' = <<"SyncReader">>
-  /\ UNCHANGED <<srvLog, srvBlobs, slot, folders, up>>
+  /\ UNCHANGED <<srvLog, srvBlobs, slot, folders, up, online>>
 
 Download(b) ==
-  /\ b \in dl /\ b \in srvBlobs
+  /\ online /\ b \in dl /\ b \in srvBlobs
   /\ blobs' = [blobs EXCEPT ![Reader] = @ \cup {b}]
   /\ dl' = dl \ {b}
-  /\ UNCHANGED <<flog, srvLog, srvBlobs, slot, folders, up, nops, last>>
+  /\ UNCHANGED <<flog, srvLog, srvBlobs, slot, folders, up, online, nops, last>>
+
+(* the server becomes unreachable / reachable again (the editor keeps      *)
+(* working; its transfer queue waits)                                      *)
+ServerDown == /\ online /\ online' = FALSE /\ nops' = nops + 1 /\ last' = <<"ServerDown">>
+              /\ UNCHANGED <<flog, srvLog, blobs, srvBlobs, slot, folders, up, dl>>
+ServerUp == /\ ~online /\ online' = TRUE /\ nops' = nops + 1 /\ last' = <<"ServerUp">>
+            /\ UNCHANGED <<flog, srvLog, blobs, srvBlobs, slot, folders, up, dl>>
 
 Next ==
   \/ /\ nops < MaxOps
@@ -168,6 +183,8 @@ Next ==
         \/ \E s \in Slots : DeleteSecret(s)
         \/ \E f \in Folders : DeleteFolder(f)
         \/ SyncReader
+        \/ ServerDown
+  \/ ServerUp
   \/ PushLog \/ Transfer
   \/ \E b \in dl : Download(b)
 
@@ -176,7 +193,7 @@ Spec == Init /\ [][Next]_vars
 ---------------------------------------------------------------------------
 (* C17 *)
 EditorExact == blobs[Editor] = Reduce(flog[Editor])
-ServerSettled == up = <<>> /\ srvLog = flog[Editor]
+ServerSettled == online /\ up = <<>> /\ srvLog = flog[Editor]
 ServerExact == ServerSettled => srvBlobs = Reduce(srvLog)
 ReaderSettled == ServerSettled /\ flog[Reader] = srvLog /\ dl = {}
 ReaderExact == ReaderSettled => blobs[Reader] = Reduce(flog[Reader])
